@@ -354,7 +354,7 @@ def real_forwarding(s):
     import qha.v2p
     fails, evals = [], 0
     cases = [dict(seed=s.seed + 31, system="orthorhombic"), dict(seed=s.seed + 32, system="monoclinic", settings={"qha": {"settings": {"static_only": True}}}),
-             dict(seed=s.seed + 33, system="trigonal7", lattice=False, settings={"qha": {"settings": {"P_MIN": 6.0, "NTV": 15}}})]
+             dict(seed=s.seed + 33, system="trigonal7", lattice=False, settings={"qha": {"settings": {"P_MIN": 6.0, "NTV": 15, "NT": 11, "DT": 150, "DT_SAMPLE": 150}}})]     # 15 x 15: square grids
     for kw in cases:
         with calc_env.synthetic_case(**kw) as case:
             try:
@@ -390,7 +390,7 @@ def real_forwarding(s):
                 fails.append({"witness_id": "real-forwarding-raises", "input": dict(kw), "observed": "raises %r" % (e,), "expected": "pressure-base quantities"})
         if fails:
             break
-    s.bounded_standin("C06.forwarding_on_real_calculators", "3 synthetic calculators (orthorhombic; monoclinic with static_only; trigonal7 with P_MIN = 6 GPa): named quantities, every component by "
+    s.bounded_standin("C06.forwarding_on_real_calculators", "3 synthetic calculators (orthorhombic; monoclinic with static_only; trigonal7 with P_MIN = 6 GPa on a square 15 x 15 grid): named quantities, every component by "
                       "attribute in six spellings, by item and through materialised items(), compliances", evals, evals, fails,
                       ["calculator.Calculator", CA + "__getattr__", CA + "v2p", "calculator.CijPressureBaseModulusInterface.items"])
 
